@@ -124,7 +124,7 @@ func indexSrc(c Case) string {
 
 func source(c Case) string {
 	if c.Route == "aged" {
-		return "r := " + recvSrc(c) + "; " + strings.Join(c.Pre, "; ") + "; r" + indexSrc(c)
+		return "r := " + recvSrc(c) + "; i := " + strings.TrimSuffix(strings.TrimPrefix(strings.Replace(indexSrc(c), "[", "(", 1), ""), "]") + "); " + strings.Join(c.Pre, "; ") + "; r[i]"
 	}
 	return recvSrc(c) + indexSrc(c)
 }
@@ -143,13 +143,13 @@ func eval(c Case) interp.Outcome {
 	}
 	env := object.NewEnclosedEnv(in.Global)
 	interp.Bind(env, "r", recvObj(c))
-	for _, st := range c.Pre {
-		in.Run(st, interp.Opts{Env: env})
-	}
 	if c.Form == "index" {
 		interp.Bind(env, "i", object.NewPanInt(c.I))
 	} else {
 		interp.Bind(env, "i", object.NewPanRange(toObj(c.Start), toObj(c.Stop), toObj(c.Step)))
+	}
+	for _, st := range c.Pre {
+		in.Run(st, interp.Opts{Env: env})
 	}
 	var node ast.Node = interp.Index(interp.Ident("r"), interp.Ident("i"))
 	return in.EvalNode(node, interp.Opts{Env: env})
@@ -474,6 +474,8 @@ var agingForms = []string{
 	"b := r[0:%[1]d]; b * %[2]d", "b := r[%[1]d:%[2]d]; c := b + r[:1]; d := b + r[1:]", "b := r[:%[1]d]; b * 2; b * 3", "b := r[::-1]; b * 2", "b := r[%[1]d:]; b + b",
 	"r.rev", "r.sort", "r.uc", "r.lc", "r.len", "r.A", "r.S", "r.repr", "r@{|x| x}", "r@{|x| [x]}", "r.push(1)", "[*r, 1]", "[*r[:2], 1, 2]", "r == r", "r.has?(r[0])", "r.T", "r.sum", "r.max", "r.min", "r.uniq", "r.first", "r.last",
 	"r[%[1]d]", "r[%[1]d:%[2]d]", "r[::%[2]d]", "r[-%[1]d:]", "b := r[%[1]d:%[2]d]; b[0]; b[::-1]", "r.try.rev.val", "r$(r[:0]){|a, x| a + r[:1]}", "r.ord", "r.sym", "r.I", "r.split(\"\")", "r.sub(\"a\", \"bb\")", "r / \"\"",
+	// the index value itself (an int or a range held in `i`) has been used before, on this and on other sequences
+	"r[i]", "\"abcdefgh\"[i]", "[9, 8, 7, 6, 5, 4, 3][i]", "r[i]; r[i]", "\"日本語のテキスト\"[i]", "i.S", "[i, i]", "r.at([i])", "Arr.bear.new([1, 2, 3])[i]", "[][i]", "\"\"[i]",
 	"r.at([0])", "r.at([(%[1]d:%[2]d)])", "r.bear", "{k: r}.k * 2", "f := {|x| x * 2}; f(r[:%[1]d])", "[r[:%[1]d]]@*(%[2]d)",
 }
 
